@@ -31,6 +31,9 @@ fn main() {
     if args[1] == "worker17" {
         std::process::exit(checks::c17::worker_main(&args));
     }
+    if args[1] == "worker07lim" {
+        std::process::exit(checks::c07::worker_lim_main(&args));
+    }
     if args[1] == "worker07" {
         std::process::exit(checks::c07::worker_main(&args));
     }
